@@ -206,7 +206,9 @@ def run(chk, facts):
         loc = facts.loc_of(fn)
         first = strip(fn["body"]["stmts"][0]["e"])
         c = src(strip(first["c"])).replace(" ", "") if first.get("k") == "if" else ""
-        ok = c == "((self.name==*other)||(other.name.as_str()==ANY))" and "returnOk(true)" in src(first["then"]).replace(" ", "")
+        from .common import cond_atoms
+        ok = first.get("k") == "if" and cond_atoms(first["c"], "||") == {("==", frozenset({"self.name", "other"})), ("==", frozenset({"other.name.as_str()", "ANY"}))} \
+            and "returnOk(true)" in src(first["then"]).replace(" ", "")
         chk.ob("R-C20-3", "reflexive-and-Any", ok, "a class is assignable to itself and to Any" if ok else f"the first test of has_parent is `{c[:100]}`", loc)
         tail = src(strip(fn["body"]["stmts"][-1]["e"])).replace(" ", "")
         ok = tail.startswith("Ok(self.parents.iter().map(|p|ctx.class(p,pos)?.has_parent(other,ctx,pos))") and tail.endswith(".iter().any(|b|*b))")
